@@ -4,7 +4,11 @@ from ._dlpoly_writeTABLE import writePotentials as dlpoly_writePotentials
 def _r_value_iterator(tabulation):
   #for n in range(tabulation.nr+1):
   for n in range(tabulation.nr):
-    yield float(n)* tabulation.cutoff / (float(tabulation.nr) -1)
+    if n == tabulation.nr - 1 and n > 0:
+      # the last point is the cutoff itself: (nr-1)*cutoff/(nr-1) can round to a value beyond it
+      yield float(tabulation.cutoff)
+    else:
+      yield float(n)* tabulation.cutoff / (float(tabulation.nr) -1)
 
 
 
